@@ -513,6 +513,16 @@ pub fn new_sx1276(tx_boost: bool) -> (Sx127x<Bus, Iv, Sx1276>, Bus) {
     b.chip().regs[SX127X_REG_VERSION as usize] = 0x12;
     (Sx127x::new(b.clone(), Iv, sx127x::Config { chip: Sx1276, tcxo_used: false, tx_boost, rx_boost: false }), b)
 }
+pub fn new_sx1276_rx(tx_boost: bool, rx_boost: bool) -> (Sx127x<Bus, Iv, Sx1276>, Bus) {
+    let b = Bus::new(Family::Sx127x);
+    b.chip().regs[SX127X_REG_VERSION as usize] = 0x12;
+    (Sx127x::new(b.clone(), Iv, sx127x::Config { chip: Sx1276, tcxo_used: false, tx_boost, rx_boost }), b)
+}
+pub fn new_sx1272_rx(tx_boost: bool, rx_boost: bool) -> (Sx127x<Bus, Iv, Sx1272>, Bus) {
+    let b = Bus::new(Family::Sx127x);
+    b.chip().regs[SX127X_REG_VERSION as usize] = 0x22;
+    (Sx127x::new(b.clone(), Iv, sx127x::Config { chip: Sx1272, tcxo_used: false, tx_boost, rx_boost }), b)
+}
 pub fn new_sx1272(tx_boost: bool) -> (Sx127x<Bus, Iv, Sx1272>, Bus) {
     let b = Bus::new(Family::Sx127x);
     b.chip().regs[SX127X_REG_VERSION as usize] = 0x22;
